@@ -94,6 +94,9 @@ func corpus() [][]string {
 		// map values behind pointers and interfaces (GetByValue on a zero value panicked)
 		cse(st(-1, fld("m", mp(str, impl1)), fld("n", mp(u(64), iface(&Alt{1, impl2})))),
 			vs(&V{K: "m", M: [][2]*V{{vstr("a"), vsome(vs(vstr("x")))}}}, &V{K: "m", M: [][2]*V{{num(7), vif(1, vsome(vs(num(3))))}}})),
+		// [1]*T as a Go-map value: a non-addressable pointer-shaped array (reflect.Copy faulted in sliceFromArray)
+		cse(st(-1, fld("m", mp(barr(false, 3), arr(1, tb(true, 32, 9, "x y"))))),
+			vs(&V{K: "m", M: [][2]*V{{vx(0, 0, 0x67), vl(vx(make([]byte, 32)...))}}})),
 		// what the form cannot express: duplicate keys, non-string map keys, big.Int out of range, nil big.Int
 		cse(st(7, fld("type", u(8)), fld("a", str), fld("a", str)), vs(num(1), vstr("x"), vstr("y"))),
 		cse(st(-1, fld("m", mp(u(32), str))), vs(&V{K: "m", M: [][2]*V{{num(1), vstr("a")}}}), vs(&V{K: "m"})),
